@@ -170,7 +170,7 @@ func isAppendCall(v ssa.Value) (*ssa.Call, bool) {
 		return nil, false
 	}
 	b, ok := c.Call.Value.(*ssa.Builtin)
-	return c, ok && b.Name() == "append"
+	return c, ok && nm(b) == "append"
 }
 
 // chain walks back from v through appends to its base (a phi or a make) and
@@ -382,7 +382,7 @@ func ruleEvRemap(w *World, r *Report) {
 		var R ssa.Value
 		leaf := func(v ssa.Value) string {
 			if c, ok := v.(*ssa.Call); ok {
-				if b, ok := c.Call.Value.(*ssa.Builtin); ok && b.Name() == "len" {
+				if b, ok := c.Call.Value.(*ssa.Builtin); ok && nm(b) == "len" {
 					arg := c.Call.Args[0]
 					_, isApp := isAppendCall(arg)
 					if isApp || resPhis[phiOf(arg)] {
